@@ -985,6 +985,56 @@ c15_fixed!(c15_get_i128_be_unsync, unsync::Arena, i128, get_i128_be, from_be_byt
 // @h props=C15 tier=thorough timeout=600 bounds=CAP=64,offset:any-usize,cursor:any
 c15_fixed!(c15_get_i128_le_sync, sync::Arena, i128, get_i128_le, from_le_bytes);
 
+/// plain layout: data_offset = 1, so allocated() can be smaller than the value being read
+pub(crate) fn c15_setup_plain<A: Allocator, const CAP: usize>() -> (A, u32) {
+  let arena: A = Options::new().with_capacity(CAP as u32).with_unify(false).with_freelist(Freelist::None).with_maximum_retries(1).alloc::<A>().unwrap();
+  let allocated: u32 = kani::any();
+  kani::assume(allocated >= 1 && allocated <= CAP as u32);
+  let data: [u8; CAP] = kani::any();
+  unsafe {
+    core::ptr::copy_nonoverlapping(data.as_ptr(), arena.raw_mut_ptr(), CAP);
+    arena.rewind(ArenaPosition::Start(allocated));
+  }
+  assert!(arena.allocated() == allocated as usize, "ENC: rewind(Start) sets the cursor inside [data_offset, capacity]");
+  (arena, allocated)
+}
+
+macro_rules! c15_fixed_plain {
+  ($name:ident, $arena:ty, $ty:ident, $get:ident, $from:ident) => {
+    #[kani::proof]
+    #[kani::unwind(18)]
+    fn $name() {
+      const SIZE: usize = core::mem::size_of::<$ty>();
+      let (arena, allocated) = c15_setup_plain::<$arena, 40>();
+      let offset: usize = kani::any();
+      let fits = (offset as u128) + (SIZE as u128) <= allocated as u128;
+      match arena.$get(offset) {
+        Ok(v) => {
+          assert!(fits, "C15: reader succeeds only when the whole value lies below allocated()");
+          let mut b = [0u8; SIZE];
+          unsafe { core::ptr::copy_nonoverlapping(arena.raw_ptr().add(offset), b.as_mut_ptr(), SIZE) };
+          assert!(v == <$ty>::$from(b), "C15: reader returns the value decoded from the bytes at the offset");
+        }
+        Err(e) => {
+          assert!(!fits, "C15: reader fails only when the value does not lie below allocated()");
+          assert!(matches!(e, Error::OutOfBounds { .. }), "C15: failure is OutOfBounds");
+        }
+      }
+      kani::cover!((allocated as usize) < SIZE && offset == 0, "cursor below the size of the value");
+      kani::cover!(fits && offset + SIZE == allocated as usize);
+      core::mem::forget(arena);
+    }
+  };
+}
+// @h props=C15 tier=quick timeout=600 bounds=CAP=40,plain-layout,offset:any-usize,cursor:1..=40
+c15_fixed_plain!(c15_get_u64_le_plain_unsync, unsync::Arena, u64, get_u64_le, from_le_bytes);
+// @h props=C15 tier=quick timeout=600 bounds=CAP=40,plain-layout,offset:any-usize,cursor:1..=40
+c15_fixed_plain!(c15_get_u16_be_plain_sync, sync::Arena, u16, get_u16_be, from_be_bytes);
+// @h props=C15 tier=thorough timeout=600 bounds=CAP=40,plain-layout,offset:any-usize,cursor:1..=40
+c15_fixed_plain!(c15_get_i128_le_plain_sync, sync::Arena, i128, get_i128_le, from_le_bytes);
+// @h props=C15 tier=thorough timeout=600 bounds=CAP=40,plain-layout,offset:any-usize,cursor:1..=40
+c15_fixed_plain!(c15_get_u32_be_plain_unsync, unsync::Arena, u32, get_u32_be, from_be_bytes);
+
 macro_rules! c15_byte {
   ($name:ident, $arena:ty, $ty:ident, $get:ident) => {
     #[kani::proof]
